@@ -1,7 +1,7 @@
 #!/bin/sh
 # run a check against a seeded change: apply to /repo, run, undo.   usage: try_seed.sh <patch.diff> <property> [extra check args]
 P=$1; PROP=$2; shift 2
-git -C /repo apply $P || exit 2
-cd /verif && timeout 3000 ./check $PROP "$@" 2>&1 | grep -v "^obligation failed" | cut -c1-220 | tail -8
+git -C /repo apply $P || { echo "patch does not apply"; exit 2; }
+cd /verif && timeout 3000 ./check $PROP "$@" 2>&1 | grep -v "^obligation failed\|^   \|^FAILED" | cut -c1-220 | tail -6
 git -C /repo checkout -- .
 git -C /repo status --short | grep -v _build
